@@ -166,12 +166,16 @@ func VfH_C06_mandatory() {
 }
 
 // H-C06-reuse (also C13): Init(t1); Init(t2) on one Segmenter equals a fresh Init(t2).
-func VfH_C06_reuse() {
-	max := 1
+func VfH_C06_reuse() { vfReuse(1, 1) }
+
+// H-C13-seg: the same comparison at the smaller bound used by the C13 check
+func VfH_C13_seg() { vfReuse(1, 1) }
+
+func vfReuse(max1, max2 int) {
 	if vfThorough() {
-		max = 2
+		max1, max2 = 2, 2
 	}
-	n1, n2 := vfChoice("len1", max+1), vfChoice("len2", max+1)
+	n1, n2 := vfChoice("len1", max1+1), vfChoice("len2", max2+1)
 	t1, t2 := vfText("rep1", n1), vfText("rep2", n2)
 	var used, fresh Segmenter
 	used.Init(t1)
